@@ -117,6 +117,31 @@ def partial_lengths(k: int, e1: int, e2: int, last: int, fill: int) -> bool:
     return h.length == len(body) and bytes(buf) == bytes(body) + b'\xEE'
 
 
+BIGFILL = bytes((i * 11 + 1) % 253 for i in range(2 ** 17 + 8))
+
+
+@ob('O9.2b', 'partial body lengths with large chunks: a first chunk of 2^e octets for every exponent the property names, then a final short length',
+    'exponent e in 0..17 (chunks up to 2^17 octets, concrete filler content), final length 0..2, first body octet symbolic',
+    cond_timeout={'q': 200, 't': 600})
+def partial_big(e: int, last: int, x: int) -> bool:
+    """
+    pre: 0 <= e <= 17
+    pre: 0 <= last <= 2
+    pre: 0 <= x < 256
+    post: _
+    """
+    n = 1
+    for k in range(18):                       # concrete chunk size per path
+        if e == k:
+            n = 2 ** k
+    body = bytes([x]) + BIGFILL[1:n] + BIGFILL[n:n + last]
+    buf = bytearray([224 + e]) + bytearray([x]) + bytearray(BIGFILL[1:n]) + bytearray([last]) + bytearray(BIGFILL[n:n + last]) + bytearray(b'\xEE')
+    h = Header()
+    h._lenfmt = 1
+    h.length = buf
+    return h.length == n + last and len(buf) == n + last + 1 and buf[0] == x and buf[-1] == 0xEE and bytes(buf[1:-1]) == body[1:]
+
+
 # ------------------------------------------------------------------------------------ O9.3 / O9.4
 @ob('O9.3', 'old-format header: emitted length field has the width the tag octet announces and decodes to n '
             '(never narrower than the value needs)',
@@ -284,7 +309,7 @@ _GRID = (0, 1, 191, 192, 193, 8383, 8384, 8385, 65535, 65536, 2 ** 24, 2 ** 32 -
 SANITY = (['newlen_roundtrip(%d)' % v for v in _GRID] + ['newfmt_header(2, %d)' % v for v in _GRID] +
           ['newfmt_header(63, %d)' % v for v in _GRID] + ['subpacket_header(2, True, %d)' % max(v, 1) for v in _GRID] +
           ['newlen_decode(0xC5, 0xFB, 0, 0, 0)', 'newlen_decode(0xFF, 0, 1, 0x86, 0xA0)', 'partial_lengths(2, 1, 0, 2, 7)',
-           'partial_lengths(1, 3, 0, 0, 0)', 'oldfmt_header(6, 0, 255)', 'oldfmt_header(6, 1, 65535)', 'oldfmt_header(2, 2, 2 ** 32 - 1)',
+           'partial_lengths(1, 3, 0, 0, 0)', 'partial_big(0, 0, 5)', 'partial_big(16, 2, 5)', 'partial_big(17, 1, 255)', 'oldfmt_header(6, 0, 255)', 'oldfmt_header(6, 1, 65535)', 'oldfmt_header(2, 2, 2 ** 32 - 1)',
            'mpi_foreign(9, 0, 0xFF, 3, 4, 5)', 'mpi_foreign(0, 1, 2, 3, 4, 5)', 'mpi_foreign(40, 1, 2, 3, 4, 5)'] +
           ['mpi_roundtrip(%d)' % v for v in (1, 2, 255, 256, 65535, 2 ** 39, 2 ** 40 - 1)] +
           ['s2k_count(%d)' % c for c in range(256)])
